@@ -64,12 +64,125 @@ def _site_from_frame(fr):
     return name
 
 
+_SITE_LINES = {}    # function name -> sorted line numbers of its evaluate_objective( call expressions
+
+
+def _scan_sites():
+    """Static table of every call site of Controller.evaluate_objective in the tree under test."""
+    import ast
+    out = {}
+    for mod in (C, S):
+        try:
+            tree = ast.parse(inspect.getsource(mod))
+        except (OSError, TypeError, SyntaxError):
+            continue
+        for fn in ast.walk(tree):
+            if isinstance(fn, ast.FunctionDef):
+                lines = sorted(set(nd.lineno for nd in ast.walk(fn) if isinstance(nd, ast.Call) and
+                                   isinstance(nd.func, ast.Attribute) and nd.func.attr == "evaluate_objective"))
+                if lines:
+                    out[fn.name] = lines
+                glines = sorted(set(nd.lineno for nd in ast.walk(fn) if isinstance(nd, ast.Call) and
+                                    isinstance(nd.func, ast.Attribute) and nd.func.attr == "check_and_fix_geometry"))
+                if glines:
+                    out["@fixgeom/" + fn.name] = glines
+    return out
+
+
+GEOM_CALLERS = ("soft_restart", "move_furthest_points")
+
+
+def all_site_ids():
+    """Every evaluation site of the tree under test, as 'function#ordinal' (source order), plus the x0 evaluation."""
+    install()
+    out = ["x0"]
+    for fn, lines in sorted(_SITE_LINES.items()):
+        if fn.startswith("@fixgeom/"):
+            out += ["geometry_step#0/check_and_fix_geometry@%d" % i for i in range(len(lines))]
+        elif fn == "geometry_step":
+            out += ["geometry_step#0/" + c for c in GEOM_CALLERS]
+        else:
+            out += ["%s#%d" % (fn, i) for i in range(len(lines))]
+    return out
+
+
+KNOWN_SITES = ['x0', 'geometry_step#0/check_and_fix_geometry@0', 'geometry_step#0/check_and_fix_geometry@1',
+               'geometry_step#0/check_and_fix_geometry@2', 'add_new_direction_while_growing#0', 'geometry_step#0/soft_restart',
+               'geometry_step#0/move_furthest_points', 'initialise_coordinate_directions#0', 'initialise_coordinate_directions#1',
+               'initialise_coordinate_directions#2', 'initialise_random_directions#0', 'initialise_random_directions#1',
+               'move_furthest_points_momentum#0', 'soft_restart#0', 'solve_main#0', 'solve_main#1']
+SITE_NAMES = {
+    'x0': 'starting point (solve_main / hard restart)',
+    'geometry_step#0/check_and_fix_geometry@0': 'geometry fix while the point set is growing',
+    'geometry_step#0/check_and_fix_geometry@1': 'geometry fix in the safety step',
+    'geometry_step#0/check_and_fix_geometry@2': 'geometry fix after an unsuccessful trust-region step',
+    'add_new_direction_while_growing#0': 'new direction while the point set is growing',
+    'geometry_step#0/soft_restart': 'geometry steps of a soft restart',
+    'geometry_step#0/move_furthest_points': 'extra regression steps (geometry type)',
+    'initialise_coordinate_directions#0': 'initial coordinate directions, projections branch',
+    'initialise_coordinate_directions#1': 'initial coordinate directions, evaluated as a batch (init.run_in_parallel)',
+    'initialise_coordinate_directions#2': 'initial coordinate directions, sequential',
+    'initialise_random_directions#0': 'initial random directions, evaluated as a batch',
+    'initialise_random_directions#1': 'initial random directions, sequential',
+    'move_furthest_points_momentum#0': 'extra regression steps (momentum type)',
+    'soft_restart#0': 'points added when a soft restart increases npt',
+    'solve_main#0': "final 'check the last step and quit' evaluation",
+    'solve_main#1': 'trust-region trial step',
+}
+
+
+# unreachable through solve() on the pinned tree, whatever the options
+DEAD_SITES = {"initialise_coordinate_directions#1": "solve() rejects init.run_in_parallel without random initial directions "
+                                                   "('Parallel initialisation not yet developed for coordinate initial directions')"}
+
+
+def site_floor(report, tags, exempt=None):
+    """Evaluation-site coverage: records which call sites of evaluate_objective were reached under this check's monitors and
+    aborts (harness error) if a site that can be reached in this check's configuration space was not - unless the tree's
+    site table differs from the one recorded here (then the floor cannot be interpreted and only the table is reported)."""
+    exempt = dict(DEAD_SITES, **(exempt or {}))
+    have = all_site_ids()
+    reached = {t[5:]: n for t, n in tags.items() if t.startswith("site:")}
+    cov = report.coverage.setdefault("evaluation_sites", {})
+    cov["reached"] = {k: {"executions": reached[k], "what": SITE_NAMES.get(k, "?")} for k in sorted(reached)}
+    cov["exempt"] = dict(exempt)
+    if sorted(have) != sorted(KNOWN_SITES):
+        cov["note"] = "site table of this tree %s differs from the recorded one; floor not applied" % have
+        return
+    missing = [k for k in KNOWN_SITES if k not in reached and k not in exempt]
+    cov["not_reached"] = missing
+    if missing:
+        raise common.HarnessError("evaluation sites never reached under this check: %s" % missing)
+
+
+def _ordinal(lines, ln):
+    return max([i for i, l in enumerate(lines) if l <= ln] or [0])
+
+
+def _site_id_from_frame(fr):
+    name = fr.f_code.co_name
+    lines = _SITE_LINES.get(name)
+    if not lines:
+        return name + "#?"
+    # the call expression may span lines: the site is the last call line at or before the current line
+    sid = "%s#%d" % (name, _ordinal(lines, fr.f_lineno))
+    if name == "geometry_step":
+        up = fr.f_back
+        cname = up.f_code.co_name if up is not None else "?"
+        if cname == "check_and_fix_geometry" and up.f_back is not None:
+            g = _SITE_LINES.get("@fixgeom/" + up.f_back.f_code.co_name)
+            cname += "@%d" % _ordinal(g, up.f_back.f_lineno) if g else "@?"
+        sid += "/" + cname
+    return sid
+
+
 def install():
     """Wrap the seams once per process.  Idempotent."""
     global _installed, _final_check_line, _trial_line
     if _installed:
         return
     _installed = True
+    _SITE_LINES.update(_scan_sites())
 
     # locate the two evaluate_objective call sites in solve_main (source order: final check, then trial step)
     try:
@@ -101,7 +214,7 @@ def install():
         if ex is None:
             return orig_eo(self, x, number_of_samples, params)
         site = _site_from_frame(sys._getframe(1))
-        rec = {"site": site, "req": int(number_of_samples), "first_call": len(ex.calls) + 1, "nf_before": self.nf,
+        rec = {"site": site, "site_id": _site_id_from_frame(sys._getframe(1)), "req": int(number_of_samples), "first_call": len(ex.calls) + 1, "nf_before": self.nf,
                "maxfun": self.maxfun}
         ex.eo_stack.append(rec)
         ex.eo_calls.append(rec)
@@ -346,6 +459,7 @@ class Execution(object):
             if memo:
                 self.memo[key] = None if r_ret is None else r_ret.copy()
         site = self.eo_stack[-1]["site"] if self.eo_stack else "x0"
+        self.tags.add("site:" + (self.eo_stack[-1]["site_id"] if self.eo_stack else "x0"))
         call = {"k": k, "x": xc, "r": None if r_ret is None else r_ret.copy(), "letter": letter_used,
                 "eval_num": None if label is None else label[0], "pt_num": None if label is None else label[1],
                 "site": site, "args": args, "run": len(self.controllers), "in_sr": self.in_soft_restart > 0}
